@@ -168,7 +168,7 @@ class C12(Check):
                         yield mk(out=[], err=pair, iters=it)
         elif layer == 'files1':
             for k in K:
-                for sub in (0, 1):
+                for sub in (0, 1, 2):
                     for sp in ('none', 'dir', 'explicit', 'glob'):
                         for it in ((1, 2, 3) if tier == 'thorough'
                                    else (1, 2)):
@@ -311,6 +311,22 @@ class C12(Check):
                 return 'file-%s' % b.files[int(target[5:])][2]
             return target
 
+        def tclass(target):
+            """coarse output class for signatures"""
+            if target.startswith('file:'):
+                k = b.files[int(target[5:])][2]
+                return 'file-text' if (k in TEXT_KINDS or k in (
+                    'zero', 'latin')) else 'file-binary'
+            return target
+
+        def mclass(kind):
+            k = kind.split('@')[0]
+            if k in ('flip', 'append', 'truncate'):
+                return 'bytes'
+            if k.startswith('status'):
+                return 'status'
+            return k
+
         def run():
             r = H.run_script(b, code)
             R.ev()
@@ -362,17 +378,17 @@ class C12(Check):
             for t in sorted(expected - badset):
                 tg = [x for x in target_list if guard_of.get(x) == t][0]
                 i = target_list.index(tg)
-                R.viol('undetected:%s:%s:n%s:%s' % (
-                    tname(tg), kinds_[i].split('@')[0], n1, sub['class']),
+                R.viol('undetected:%s:%s:%s' % (
+                    tclass(tg), mclass(kinds_[i]), sub['class']),
                     'change-is-reported-by-its-test',
                     {'case': case, 'mutation': sub, 'failing': bad,
                      'expected_failing': sorted(expected)}, sub)
             for t in sorted(badset - expected - graytests):
                 gd = want_tests.get(t)
-                R.viol('collateral:%s-fails-on-%s:%s:n%s' % (
-                    self.gname(b, gd), '+'.join(tname(x) for x in
+                R.viol('collateral:%s-fails-on-%s:%s' % (
+                    self.gname(b, gd), '+'.join(tclass(x) for x in
                                                 target_list),
-                    kinds_[0].split('@')[0], n1),
+                    mclass(kinds_[0])),
                     'untouched-outputs-keep-passing',
                     {'case': case, 'mutation': sub, 'failing': bad,
                      'expected_failing': sorted(expected)}, sub)
